@@ -134,6 +134,21 @@ Theorem C02_points_for_x : forall p : Z, prime p -> p mod 4 = 3 ->
 Proof. exact points_for_x_spec. Qed.
 Print Assumptions C02_points_for_x.
 
+(* on a curve of odd order no point has y = 0: unconditional in x *)
+Theorem C02_points_for_x_odd_order : forall c : curve, M1 c -> cp c mod 4 = 3 -> M3 c -> M4 c ->
+  Z.odd (cn c) = true -> (forall P, valid c P -> order_kills c P) ->
+  forall (g : gen) (x : Z), gc g = c ->
+  match points_for_x g x with
+  | Ret (P0, P1) =>
+      exists y0 y1, P0 = Some (x, y0) /\ P1 = Some (x, y1) /\ Z.even y0 = true /\ Z.odd y1 = true /\
+        0 < y0 < cp c /\ 0 < y1 < cp c /\ y0 + y1 = cp c /\
+        forall y, 0 <= y < cp c -> (on_curve c (Some (x, y)) <-> y = y0 \/ y = y1)
+  | Raise _ => forall y, ~ on_curve c (Some (x, y))
+  | OutOfFuel => False
+  end.
+Proof. exact points_for_x_odd_order. Qed.
+Print Assumptions C02_points_for_x_odd_order.
+
 (* ---- toy curves: M1, M3, M4, the order, odd order are decided by vm_compute (toy_ok); nothing is assumed ---- *)
 Theorem C02_toy_premises_hold : forall c : curve, toy_ok c = true -> toy_facts c.
 Proof. exact toy_ok_sound. Qed.
